@@ -31,6 +31,9 @@ type CrashRound struct {
 	SelA  uint32 `json:"sel_a"`          // selects the site from the round's profile
 	SelB  uint32 `json:"sel_b"`          // selects the hit number
 	Late  bool   `json:"late,omitempty"` // choose among the last quarter of the site's hits (the end of the segment)
+	// Abandon: no crash site; the process executes the whole segment and then
+	// dies without closing the engine (what sits in user-space buffers is lost)
+	Abandon bool `json:"abandon,omitempty"`
 	// resolved by the run (recorded for replay and evidence)
 	Site string `json:"site,omitempty"`
 	N    int    `json:"n,omitempty"`
@@ -136,7 +139,11 @@ func RunCrashCase(c *CrashCase, replay bool, filter SiteFilter) (*Failure, []str
 			_ = os.Remove(spec.SnapOut)
 		}
 		site := "clean-close"
-		if !rd.Clean {
+		if rd.Abandon {
+			spec.NoClose = true
+			site = "abandon-after-segment"
+		}
+		if !rd.Clean && !rd.Abandon {
 			if !replay || rd.Site == "" {
 				// profile this round on a copy of the directory
 				pdir := root + "/prof"
@@ -178,7 +185,7 @@ func RunCrashCase(c *CrashCase, replay bool, filter SiteFilter) (*Failure, []str
 				}
 			}
 		}
-		if !rd.Clean {
+		if !rd.Clean && !rd.Abandon {
 			spec.CrashSite, spec.CrashN = rd.Site, rd.N
 			site = rd.Site
 		}
@@ -217,6 +224,9 @@ func RunCrashCase(c *CrashCase, replay bool, filter SiteFilter) (*Failure, []str
 		if res.WriteError != "" {
 			count("rounds_with_write_error", 1)
 			note("write error in child: " + res.WriteError)
+		}
+		if rd.Abandon && !res.Crashed && res.ExitCode == 0 {
+			res.Crashed = true // died without closing
 		}
 		acked := len(res.Acked)
 		upper := acked + 1
